@@ -15,12 +15,15 @@ import json
 from gx import engine_driver as ed
 
 
-def doc_json(doc):
+def doc_json(doc, tables=None, snap=None):
   """Engine document as the driver's `init` format (exact tokens + column infos from engine.schema)."""
   out = {}
-  snap = doc.snapshot()
+  if snap is None:
+    snap = doc.snapshot(tables=tables)
   sch = doc.engine_schema()
   for tid, t in snap.items():
+    if tables is not None and tid not in tables:
+      continue
     cols = {}
     for cid, vals in t["cols"].items():
       info = sch.get(tid, {}).get(cid)
@@ -32,9 +35,23 @@ def doc_json(doc):
   return out
 
 
-def engine_obs(doc):
+def engine_obs(doc, tables=None, snap=None):
   """What the model's `obs` is compared with."""
-  return doc_json(doc)
+  return doc_json(doc, tables, snap)
+
+
+def touched_tables(res):
+  """Tables named by the bundle's steps / stored actions (plus rename targets)."""
+  out = set()
+  for s in (res.steps or []):
+    if s[0] == "doc":
+      a = s[1]
+      out.add(a[1])
+      if a[0] == "RenameTable":
+        out.add(a[2])
+    elif s[0] in ("calc", "flushcol"):
+      out.add(s[1])
+  return out
 
 
 class Tie(object):
@@ -53,7 +70,7 @@ class Tie(object):
       self.ops.append({"m": "engine", "op": "init", "sid": sid, "doc": dj})
       self.expect.append(lambda ans: [("driver", str(ans))] if "error" in ans else [])
 
-  def bundle(self, doc, res, index, compare_lists=True):
+  def bundle(self, doc, res, index, compare_lists=True, snap=None, full=False):
     """Record one bundle: `res` is the BundleResult (with steps), `doc` the engine after it."""
     self.n_bundles += 1
     steps = res.steps or []
@@ -94,14 +111,31 @@ class Tie(object):
             out.append(("model-note", n))
         return out
       self.expect.append(chk)
-    eo = engine_obs(doc)
-    self.ops.append({"m": "engine", "op": "obs", "sid": "M"})
-    self.expect.append(lambda ans, eo=eo: [("doc-M", d) for d in diff_obs(ans, eo)[:2]])
+    all_tables = sorted(doc.engine.tables.keys())
+    if full:
+      tables = None
+      obs_op = {"m": "engine", "op": "obs"}
+    else:
+      tables = sorted((touched_tables(res) | set(doc.user_tables())) & set(all_tables) | (touched_tables(res)))
+      obs_op = {"m": "engine", "op": "obs", "tables": tables}
+    eo = engine_obs(doc, None if full else [t for t in tables if t in doc.engine.tables], snap)
+    def chk_obs(ans, eo=eo, exact=True, which="doc-M", all_tables=all_tables):
+      if "error" in ans and isinstance(ans["error"], str):
+        return [("driver", ans["error"])]
+      if "partial" in ans:
+        out = []
+        if sorted(ans["all_tables"]) != all_tables:
+          out.append((which, "table sets differ: model %r engine %r" % (
+            sorted(set(ans["all_tables"]) - set(all_tables)), sorted(set(all_tables) - set(ans["all_tables"])))))
+        return out + [(which, d) for d in diff_obs(ans["partial"], eo, exact)[:2]]
+      return [(which, d) for d in diff_obs(ans, eo, exact)[:2]]
+    self.ops.append(dict(obs_op, sid="M"))
+    self.expect.append(chk_obs)
     if res.ok:
       self.ops.append({"m": "engine", "op": "apply", "sid": "P", "actions": res.stored})
       self.expect.append(lambda ans: [("replica-apply", ans["error"])] if "error" in ans else [])
-      self.ops.append({"m": "engine", "op": "obs", "sid": "P"})
-      self.expect.append(lambda ans, eo=eo: [("doc-P", d) for d in diff_obs(ans, eo, exact=False)[:2]])
+      self.ops.append(dict(obs_op, sid="P"))
+      self.expect.append(lambda ans, f=chk_obs: f(ans, exact=False, which="doc-P"))
     for _ in range(len(self.ops) - len(self.expect)):
       self.expect.append(None)
     self._tag_last(index)
